@@ -460,10 +460,25 @@ func (c *Client) SyncCollection(ctx context.Context, path string, query *SyncQue
 			return nil, err
 		}
 
+		// The address data was asked for: hand it on when the server sent it
+		var card vcard.Card
+		var addrData addressDataResp
+		if err := resp.DecodeProp(&addrData); err != nil {
+			if !internal.IsNotFound(err) {
+				return nil, err
+			}
+		} else if len(addrData.Data) > 0 {
+			card, err = vcard.NewDecoder(bytes.NewReader(addrData.Data)).Decode()
+			if err != nil {
+				return nil, err
+			}
+		}
+
 		o := AddressObject{
 			Path:    p,
 			ModTime: time.Time(getLastMod.LastModified),
 			ETag:    string(getETag.ETag),
+			Card:    card,
 		}
 		ret.Updated = append(ret.Updated, o)
 	}
